@@ -439,6 +439,8 @@ pub async fn run_case(backend: &str, seed: u64, rep: &mut Report, ops: &mut Vec<
                     let (m, sc) = { let l = format!("after-export{}", rng.below(50)); mk_secret(&mut rng, &l) };
                     let d = content_digest(&m, &sc).await;
                     if let Ok(ch) = a.create_secret(m, sc, AccessOptions { folder: Some(f), ..Default::default() }).await { live.entry(f).or_default().insert(ch.id, d); }
+                    // and half of the time the folder gets another name (so that an imported copy clashes by id only)
+                    if rng.chance(1, 2) { let n = format!("renamed-after-export-{}", rng.below(1000)); if a.rename_folder(&f, n.clone()).await.is_ok() { cx.script.push(format!("rename {f} {n}")); } }
                     let way = special - 25;
                     if way < 3 {
                         // a copy beside the original (the identifier exists: it is rotated, the name changed)
